@@ -173,6 +173,11 @@ class Metasubinstance(type):
 class MetaEClass(Metasubinstance):
     def __init__(cls, name, bases, nmspc):
         super().__init__(name, bases, nmspc)
+        if 'dyn_inst' in nmspc:
+            # the Python class of a *dynamic* EClass whose supertype is a
+            # static class (this metaclass comes along with the base): it has
+            # its EClass already and stays dynamic
+            return
         Core.register_classifier(cls, promote=True)
         cls._staticEClass = True
 
